@@ -224,9 +224,10 @@ Definition h_append_op (v : bytes) (prepend : bool) : handlers := {|
   h_index := fun _ _ _ => Err EPath;
   h_append := fun xs => Ok (if prepend then SLeaf v :: xs else xs ++ [SLeaf v]) |}.
 
+(* (h_field is never reached: REMOVE_AT requires the final segment to be an index) *)
 Definition h_remove_at : handlers := {|
   h_missing := fun _ _ _ => Err EPath;
-  h_field := fun _ _ _ _ => Err EPath;
+  h_field := fun b _ _ a => Ok (b ++ a);
   h_index := fun b _ a => Ok (b ++ a);
   h_append := fun _ => Err EPath |}.
 
